@@ -320,6 +320,8 @@ def build_ops(kind, arr, rs, with_dask):
                   'multipoint': MultiPoint([float(v) for i in live for v in np.asarray(arr[i].flat_values)] or [1.5, 2.5]),
                   'empty-multipoint': MultiPoint([])}
         for nm, sh in shapes.items():
+            if n > 200 and nm in ('line', 'nan-line', 'multipoint', 'empty-multipoint'):
+                continue        # numba opens a parallel region per point for these: slow with many threads
             ops.append((f'point.intersects:{nm}', False, lambda b, s=sh: _canon(arr.intersects(s))))
             ops.append((f'point.intersects[inds]:{nm}', False, lambda b, s=sh: _canon(arr.intersects(s, inds=inds))))
     if with_dask:
@@ -355,18 +357,18 @@ def history_suite(seed, tier):
     for kind in KINDS:
         for n in sizes_n:
             arr = make_small(kind, gen_elements(rs, kind, n))
-            with_dask = n in (48, 200)
+            with_dask = n == 48
             ops, sizes = build_ops(kind, arr, rs, with_dask)
             boxes = boxes_for(arr)
             for op, needs_box, fn in ops:
                 slow = op.startswith('dask')
                 qs = boxes if needs_box else [('-', None)]
                 if slow:
-                    qs = [q for q in boxes if q[0] in ('box', 'zero-width', 'zero-height@vertex')]
+                    qs = [q for q in boxes if q[0] in ('zero-width', 'zero-height@vertex')]
                 for bname, b in qs:
                     results = {}
                     for hist in HISTORIES:
-                        if slow and hist in ('dirty-ff', 'dirty-float', 'after-everything-again'):
+                        if slow and hist not in ('first', 'after-everything', 'dirty-01'):
                             continue
                         if hist.startswith('after-everything'):
                             if not needs_box:
